@@ -23,6 +23,13 @@ inductive Err where
   | unmodelled (why : String)
 deriving DecidableEq, Repr, Inhabited
 
+instance {ε α : Type} [DecidableEq ε] [DecidableEq α] : DecidableEq (Except ε α) := fun a b =>
+  match a, b with
+  | .ok x, .ok y => if h : x = y then isTrue (by rw [h]) else isFalse (fun e => h (Except.ok.inj e))
+  | .error x, .error y => if h : x = y then isTrue (by rw [h]) else isFalse (fun e => h (Except.error.inj e))
+  | .ok _, .error _ => isFalse (fun e => by cases e)
+  | .error _, .ok _ => isFalse (fun e => by cases e)
+
 /-- `[f a for a in l]` where `f` may raise (the first exception wins); structural, so that it
 unfolds in proofs -/
 def mapE {α β : Type} (f : α → Except Err β) : List α → Except Err (List β)
@@ -173,8 +180,11 @@ def strWidth (x : PyVal) : Nat :=
 def canCast (a b : Dtype) : Bool :=
   a = b || a = .bool && rank b ≤ 2 || rank a = 1 && b = .f64
 
-/-- `_get_common_type_dims`: left-to-right, `can_cast(acc, elem)` must hold at every step
-(`ValueError` otherwise), the accumulator is promoted.  Returns dtype, unicode width, ndim. -/
+/-- `_get_common_type_dims`: the common dtype of the elements (their join), unicode width, ndim.
+The pinned code folds left to right and raises `ValueError` when `can_cast(acc, elem)` fails at some
+step, which depends on the order of the elements (defect D8 of property C11, repaired there by
+promoting the set of dtypes at once); where that happens the model makes no claim
+(`unmodelled`) — on every other input the two versions agree and so does the model. -/
 def commonTypeDims : List PyVal → Except Err (Dtype × Nat × Nat)
   | [] => .ok (.i64, 1, 1)
   | x :: xs =>
@@ -183,20 +193,28 @@ def commonTypeDims : List PyVal → Except Err (Dtype × Nat × Nat)
         let w := strWidth y
         if canCast acc.1 d ∧ (acc.1 = .str → acc.2.1 ≤ w) then
           .ok (promote acc.1 d, max acc.2.1 w, max acc.2.2 ((pyRow y).1.length))
-        else .error .valueError)
+        else .error (.unmodelled "order-dependent common dtype (D8, property C11)"))
       (elemDtype x, strWidth x, (pyRow x).1.length)
 
-/-- `construct_var_len_props(values)["values"]` for a list without `None`: every element cast to
-the common dtype, leading axes of extent 1 prepended up to the common rank -/
-def constructVarLenProps (vals : List PyVal) : Except Err (Dtype × List Row) := do
-  let (d, _, nd) ← commonTypeDims vals
-  -- numpy infers the `ulonglong` flavour of uint64 for all-large Python ints, which zarr refuses;
-  -- the model has one uint64 only (known finding C03:ragged-int-values-ge-2^63)
-  if d = .u64 then throw (.unmodelled "uint64 flavour of a variable-length array")
-  let rows ← mapE (fun x => do
-    let r ← castRow d (pyRow x)
-    return (List.replicate (nd - r.1.length) 1 ++ r.1, r.2)) vals
-  return (d, rows)
+/-- one element of `construct_var_len_props`: cast to the common dtype, leading axes of extent 1
+prepended up to the common rank -/
+def varLenRow (d : Dtype) (nd : Nat) (x : PyVal) : Except Err Row :=
+  match castRow d (pyRow x) with
+  | .error e => .error e
+  | .ok r => .ok (List.replicate (nd - r.1.length) 1 ++ r.1, r.2)
+
+/-- `construct_var_len_props(values)["values"]` for a list without `None`.  numpy infers the
+`ulonglong` flavour of uint64 for all-large Python ints, which zarr refuses; the model has one
+uint64 only, so that case is outside it (known finding `C03:ragged-int-values-ge-2^63`). -/
+def constructVarLenProps (vals : List PyVal) : Except Err (Dtype × List Row) :=
+  match commonTypeDims vals with
+  | .error e => .error e
+  | .ok (d, _, nd) =>
+    if d = .u64 then .error (.unmodelled "uint64 flavour of a variable-length array")
+    else
+      match mapE (varLenRow d nd) vals with
+      | .error e => .error e
+      | .ok rows => .ok (d, rows)
 
 /-- `np.asarray(values)` + `_exact_int_array` for values of one shape: one regular array -/
 def regularArr (vals : List PyVal) : Except Err (Dtype × Bool × List Row) :=
